@@ -556,3 +556,54 @@ func ZZ_C07_hybrid_history() {
 		zz.Cover("hybrid:first-token-within-its-lifetime", true)
 	}
 }
+
+// ZZ_C07_reconfigured: the server-wide access-token lifespan is CHANGED between two issuances on one provider
+// (password grant, then client credentials or another password grant). Each token advertises the lifespan in
+// force when IT was issued and is honoured accordingly: the second token knows nothing of the first lifespan,
+// and the first token keeps its own.
+func ZZ_C07_reconfigured() {
+	l1 := secs("life1", 1, 2*3600)
+	l2 := secs("life2", 1, 2*3600)
+	wd := world.New(world.Options{Tweak: func(cfg *fosite.Config) { cfg.AccessTokenLifespan = l1 }})
+	r1, err := wd.Password("c1", []string{"photos"})
+	zz.Assume(err == nil)
+	e1, ok := expiresIn(r1)
+	zz.Assert(ok, "reconfigured: the first response carries expires_in")
+	adv1 := time.Duration(e1) * time.Second
+	zz.Assert(adv1 <= l1+slack && adv1 > l1-2*slack, "reconfigured: the first token advertises the lifespan in force at its issuance")
+	wd.Cfg.AccessTokenLifespan = l2
+	var r2 fosite.AccessResponder
+	if zz.Choice("second", 2) == 0 {
+		r2, err = wd.Password("c1", []string{"photos"})
+	} else {
+		r2, err = wd.Token("c2", "", url.Values{"grant_type": {"client_credentials"}, "scope": {"mail"}})
+	}
+	zz.Assume(err == nil)
+	e2, ok := expiresIn(r2)
+	zz.Assert(ok, "reconfigured: the second response carries expires_in")
+	adv2 := time.Duration(e2) * time.Second
+	zz.Assert(adv2 <= l2+slack && adv2 > l2-2*slack, "reconfigured: the second token advertises the lifespan in force NOW")
+	d := dur("advance", 0, 3*3600)
+	if zz.Symbolic() {
+		for _, l := range []time.Duration{l1, l2} {
+			zz.Assume(zz.Or(d < l-3*time.Second, d > l+3*time.Second))
+		}
+	}
+	zz.Advance(d)
+	a1, _ := wd.Introspect(r1.GetAccessToken(), fosite.AccessToken)
+	a2, _ := wd.Introspect(r2.GetAccessToken(), fosite.AccessToken)
+	zz.Observe("first.active", a1)
+	zz.Observe("second.active", a2)
+	if d > l1 {
+		zz.Assert(!a1, "reconfigured: the first token is not honoured after ITS lifespan")
+	} else {
+		zz.Assert(a1, "reconfigured: the first token is honoured within its lifespan")
+	}
+	if d > l2 {
+		zz.Assert(!a2, "reconfigured: the second token is not honoured after the lifespan in force at its issuance")
+	} else {
+		zz.Assert(a2, "reconfigured: the second token is honoured within its lifespan")
+	}
+	zz.Cover("reconfigured:lifespan-shortened", l2 < l1)
+	zz.Cover("reconfigured:lifespan-extended", l2 > l1)
+}
